@@ -304,13 +304,34 @@ def grow(ctx, pgpy, key, other, stage, t):
 STAGES = ['uid', 'attr', 'local-cert', 'third-party', 'revoke-uid', 'subkey', 'enc-subkey', 'revoke-sub', 'revoke-key']
 
 
-def history(ctx, d, pgpy, name, plan, protect=True):
+def old_format(data):
+    """the same packets with old-format headers where the tag allows it (as GnuPG writes keys)"""
+    out = b''
+    for t, b in split_packets(data):
+        n = len(b)
+        if t >= 16:
+            out += bytes([0xc0 | t]) + (bytes([n]) if n < 192 else bytes([192 + ((n - 192) >> 8), (n - 192) & 0xff]) if n < 8384 else b'\xff' + n.to_bytes(4, 'big'))
+        elif n < 256:
+            out += bytes([0x80 | (t << 2), n])
+        elif n < 65536:
+            out += bytes([0x80 | (t << 2) | 1]) + n.to_bytes(2, 'big')
+        else:
+            out += bytes([0x80 | (t << 2) | 2]) + n.to_bytes(4, 'big')
+        out += b
+    return out
+
+
+def history(ctx, d, pgpy, name, plan, protect=True, oldfmt=False):
     from .keys import get, T0
     from pgpy.constants import SymmetricKeyAlgorithm as S, HashAlgorithm as H
     with warnings.catch_warnings():
         warnings.simplefilter('ignore')
         key = get(name)
-        other = get('ed25519b' if name != 'ed25519b' else 'p256')
+        if oldfmt:
+            # a private key LOADED from old-format packets: its user id / signature packets keep their header format in the twin
+            key = pgpy.PGPKey.from_blob(old_format(bytes(key)))[0]
+            name = name + '/old-format'
+        other = get('ed25519b' if not name.startswith('ed25519b') else 'p256')
         secrets = secrets_of(key)
         twins = [('t0', key.pubkey)]
         check_twin(ctx, d, 'twin', key, twins[0][1], {'op': 'twin', 'key': name, 'stage': 'loaded'}, secrets)
@@ -457,6 +478,10 @@ def run(ctx):
         for n, plan, prot in plans:
             if n in names:
                 history(ctx, d, pgpy, n, plan, prot)
+        for n, plan, prot in ([('p256', ['third-party', 'subkey'], True), ('rsa2048', ['uid'], False), ('ed25519', [], True)] if q else
+                              [(n, [rng.choice(STAGES) for _ in range(3)], True) for n in names]):
+            if n in names:
+                history(ctx, d, pgpy, n, plan, prot, oldfmt=True)
         for n in (['ed25519', 'rsa1024', 'p256'] if q else names):
             if n in names:
                 suite_actions(ctx, d, pgpy, n)
@@ -470,25 +495,67 @@ def run(ctx):
         d.close()
 
 
+def direct_failures(key, pub, secrets):
+    """the property itself on the implementation, without the model: list of what fails"""
+    bad = []
+    raw = bytes(pub)
+    pk = split_packets(raw)
+    if set(t for t, b in pk) - PUBLIC_TAGS:
+        bad.append('tags')
+    if outcome(dearmor, str(pub)) != ('ok', ('PUBLIC KEY BLOCK', raw)):
+        bad.append('armor')
+    kb = [b for t, b in pk if t in (6, 14)]
+    want = [str(key.fingerprint).lower()] + [str(s.fingerprint).lower() for s in key.subkeys.values()]
+    if [rfc_fp(b) for b in kb] != want:
+        bad.append('fingerprints')
+    if [(t, b) for t, b in pk if t in (13, 17)] != [body_of(u._uid) for u in key._uids]:
+        bad.append('identities')
+    if any(not exportable_indep(b) for t, b in pk if t == 2):
+        bad.append('non-exportable signature')
+    if any(sec in blob for _, sec in secrets for blob in (raw, str(pub).encode())):
+        bad.append('secret octets')
+    return bad
+
+
 def replay(ctx, case):
-    """re-run ONE recorded case on the implementation"""
+    """re-run ONE recorded case on the implementation (no model involved); True = it still fails"""
     pgpy = load_repo()
+    from .keys import get, T0, SPECS
+    from pgpy.constants import SymmetricKeyAlgorithm as S, HashAlgorithm as H
     try:
-        if case.get('op') in ('twin', 'forms') and case.get('export'):
-            raw = bytes.fromhex(case['export'])
-            return bool(set(t for t, b in split_packets(raw)) - PUBLIC_TAGS)
-        if case.get('op') == 'action':
-            from .keys import get
-            key = get(case['object'].split('/')[0]) if '/' in case['object'] and case['object'].split('/')[0] in available_names() else None
-            if key is None:
-                return False
-            o = out2(lambda: key.pubkey.sign('x'))
-            return o[0] == 'ok'
+        with warnings.catch_warnings():
+            warnings.simplefilter('ignore')
+            if case.get('op') in ('twin', 'forms') and case.get('key') in SPECS:
+                name = case['key']
+                key = get(name)
+                other = get('ed25519b' if name != 'ed25519b' else 'p256')
+                stages = [x for x in case.get('stage', '').split('+') if x]
+                for i, st in enumerate(x for x in stages if x in STAGES):
+                    out2(lambda: grow(ctx, pgpy, key, other, st, T0 + timedelta(days=1 + i)))
+                secrets = secrets_of(key)
+                bad = direct_failures(key, key.pubkey, secrets)
+                base = bytes(key.pubkey)
+                if 'protect' in stages or case.get('op') == 'forms':
+                    key.protect('correct horse', S.AES256, H.SHA256)
+                    bad += direct_failures(key, key.pubkey, secrets)
+                    with key.unlock('correct horse'):
+                        bad += direct_failures(key, key.pubkey, secrets + secrets_of(key))
+                        if bytes(key.pubkey) != base:
+                            bad.append('forms')
+                    if bytes(key.pubkey) != base:
+                        bad.append('forms')
+                return bool(bad)
+            if case.get('op') == 'action' and case.get('object', '').split('/')[0] in SPECS:
+                name, label = case['object'].split('/', 1)
+                key = get(name)
+                pub = key.pubkey
+                obj = {'derived': pub, 'loaded-binary': pgpy.PGPKey.from_blob(bytes(pub))[0], 'loaded-armored': pgpy.PGPKey.from_blob(str(pub))[0]}.get(label)
+                if obj is None:
+                    return False
+                helper = get('ed25519b')
+                acts = {'sign': lambda: obj.sign('x'), 'certify': lambda: obj.certify(obj.userids[0]), 'revoke': lambda: obj.revoke(obj.userids[0]),
+                        'revoker': lambda: obj.revoker(helper), 'bind': lambda: obj.bind(helper), 'decrypt': lambda: obj.decrypt(pgpy.PGPMessage.new('x'))}
+                return classify(out2(acts[case['action']])) != 'attr:is_public'
     except Exception:
         return True
     return False
-
-
-def available_names():
-    from .keys import SPECS
-    return set(SPECS)
